@@ -109,7 +109,7 @@ struct HPca : Harness {
     f.rc = sim_guard(call_pca, &c);
     f.unjoined = sim_unjoined();
     sim_end_run(&f.sr);
-    if (f.sr.races) { f.race_cls = race_class(); f.race_txt = races_text(); }
+    if (f.sr.races && races_are_verdicts()) { f.race_cls = race_class(); f.race_txt = races_text(); }
     const sim_switch *sw; size_t n = sim_switches(&sw); if (n && n < 6000) f.switches = switches_text(sw, n);
     return f;
   }
